@@ -166,6 +166,12 @@ pub fn main(a: &Args) {
             inputs_v.push((text, fr, wrapper));
             inputs_v.push((prose, "plain".into(), 0));
         }
+        for i in 0..a.num("soups", 3000) {
+            let t = inputs::token_soup(&mut rng);
+            inputs_v.push((t.clone(), "plain".into(), 0));
+            if i % 3 == 0 { inputs_v.push((t.clone(), "markdown".into(), 0)); }
+            if i % 7 == 0 { let fr = rng.pick(&fronts[..]).clone(); inputs_v.push((inputs::wrap_front(&fr, &t, &mut rng), fr, 0)); }
+        }
         for adv in inputs::adversarial() {
             for fr in ["plain", "markdown", "typst", "html", "lhaskell", "git-commit", "rust", "javascript", "java", "go"] {
                 inputs_v.push((adv.clone(), fr.to_string(), 0));
